@@ -250,7 +250,7 @@ func thumbOfJWK(j jwk.Key) string {
 	return fmt.Sprintf("%x", t)
 }
 
-func (k *key) did() did.DID            { return did.MustParseDID("did:nuts:" + k.thumb) }
+func (k *key) did() did.DID             { return did.MustParseDID("did:nuts:" + k.thumb) }
 func (k *key) kid(owner did.DID) string { return owner.String() + "#" + k.frag }
 
 // signer returns the dagx key that signs with `kid` header = kid.
@@ -374,7 +374,6 @@ func mutate(doc []byte, f func(m map[string]any)) []byte {
 
 func sum(b []byte) string { h := sha256.Sum256(b); return fmt.Sprintf("%x", h[:6]) }
 
-
 func didnutsResolver(e *env) didnuts.Resolver { return didnuts.Resolver{Store: e.store} }
 
 // ---- shadow: what the harness knows was accepted ---------------------------------------------------------------
@@ -396,9 +395,9 @@ type sver struct {
 	capInv   map[string]bool // RFC7638 thumbprints (hex) of the keys under capabilityInvocation
 	vmIDs    map[string]bool // ids under verificationMethod
 	ctrl     []string
-	deact    bool // document without controllers and without capabilityInvocation keys
-	embedded bool // arrived in a transaction with an embedded key
-	n        int  // position among the accepted versions of its DID
+	deact    bool    // document without controllers and without capabilityInvocation keys
+	embedded bool    // arrived in a transaction with an embedded key
+	n        int     // position among the accepted versions of its DID
 	co       []*sver // versions that were heads together with this one at some time: the store resolves the transaction of one
 	// branch of a conflict to the merged version, so the text's "version it succeeds" is the merge there
 }
@@ -1227,7 +1226,6 @@ func (s *scenario) submit(p *pair) (dag.Transaction, bool) {
 }
 
 func kindTail(kind string) string { return strings.ReplaceAll(kind, "/", "-") }
-
 
 // ---- the check ---------------------------------------------------------------------------------------------------------------
 
